@@ -75,6 +75,31 @@ def check(run, model, tier):
                 any(isinstance(c.func, ast.Attribute) and c.func.attr in MUTATORS and dotted(c.func.value) == track for c in n.calls())]
         run.inst('ORDER.reject-leaves-tracked', f, 'tracking deque unmodified before raise', not muts,
                  'the tracking deque is modified on a path to the rejection' if muts else '', node=r.ast, obligation=True)
+    # nothing that posts may run on a path that ends in the rejection (a helper that makes the source's first activation, called before the admission test)
+    from sa.context import callgraph
+    cg = callgraph(model)
+    run.rule('ORDER.reject-no-post', 'no call that can reach post_fifo/post_lifo lies on a path to the out-of-resources raise')
+    posters = {}
+    for (t_, c_, how_) in cg.edges.get(f, []):
+        if isinstance(t_, str):
+            continue
+        reach = cg.reach([t_])
+        hit = [x for x in reach if x.name in ('post_fifo', 'post_lifo', '_post_fifo', '_post_lifo') or
+               any(isinstance(cc.func, ast.Attribute) and cc.func.attr in ('append', 'appendleft') and (dotted(cc.func.value) or '').endswith('.queue') for cc in shallow_calls(x.node))]
+        if hit:
+            posters[id(c_)] = (c_, t_, hit[0])
+    for r in raises:
+        before = g.reachable(r, forward=False)
+        bad = []
+        for n in before:
+            if n.kind in ('entry', 'exit', 'xexit', 'def'):
+                continue
+            for c in n.calls():
+                if id(c) in posters:
+                    bad.append((n, posters[id(c)]))
+        run.inst('ORDER.reject-no-post', f, 'no posting call before the rejection', not bad,
+                 '' if not bad else ('on a path that ends in the out-of-resources rejection %s is called, which reaches %s: the rejected source posts its event (from the caller\'s thread) before '
+                                     'the exception is raised' % (norm(bad[0][1][0]), bad[0][1][2].qualname)), node=bad[0][0].ast if bad else r.ast, obligation=True)
     appends = [n for n in g.nodes if n.kind not in ('entry', 'exit', 'xexit', 'def') and
                any(isinstance(c.func, ast.Attribute) and c.func.attr == 'append' and dotted(c.func.value) == track for c in n.calls())]
     run.floor('tracking append sites', len(appends), 1)
